@@ -95,3 +95,13 @@ from vlib.props_C07 import ENTRY as _E07
 ENTRY["streams"] = ENTRY["streams"] + [dict(_QS, n_quick=20000, seeds_quick=1)] + \
     [dict(s, n_quick=max(1, s.get("n_quick", 1000) // 2), seeds_quick=1) for s in _E07["streams"]]
 ENTRY["monitor_sigs"] = ENTRY["monitor_sigs"] + ["qbft:disagreement", "parsigdb:rejected_set_exchanged", "parsigdb:equivocation_accepted"]
+
+# the last hop: core/bcast Broadcaster.Broadcast — what a node actually hands to its beacon node
+# (Model/CoreBcast.lean, Props/C01Bcast.lean, stream corebcast)
+from vlib import snippet_C01bcast as _cb
+ENTRY["streams"] = ENTRY["streams"] + [_cb.STREAM]
+ENTRY.setdefault("lean_props_extra", []).append(_cb.EXTRA_LEAN)
+ENTRY["monitor_sigs"] = ENTRY["monitor_sigs"] + _cb.MONITOR_SIGS
+ENTRY["trusted_base"] = ENTRY["trusted_base"] + _cb.TRUSTED_BASE
+ENTRY["assumptions"] = [a.replace("the beacon node and core/bcast (the recorder stands at the input of Broadcaster.Broadcast)", "the beacon node") for a in ENTRY["assumptions"]] + _cb.ASSUMPTIONS
+ENTRY["level_text"] = ENTRY["level_text"] + " " + _cb.LEVEL_TEXT
